@@ -1,5 +1,6 @@
 SPECIFICATION TraceSpec
 CONSTANTS
+  Methods = {"GET"}
   Versions = {"1.1"}
   CTypes = {"default"}
   AEs = {"absent"}
